@@ -12,6 +12,7 @@ def run(tier, seed, limit=0):
     if limit:
         scs = scs[:limit]
     chk.run_scenarios(scs, MODULE, fn=RUNNER, batch_events=2500)
+    chk.run_mc("B_Bins", {"MaxV": 3 if tier == "quick" else 5}, workers=12, label="compact/intersect |= value sets")
     return chk.finish(LEVEL, "random bin specifications (explicit bins, arrays with/without count, unordered/adjacent disjoint ranges, "
                       "ignore/illegal sets, auto-bins with auto_bin_max, enum, iff, signed types) each sampled with every value of the "
                       "type plus repeats and gated-off samples; TLC recomputes Partition(Values \\ Excluded, n) and every counter after "
